@@ -227,6 +227,10 @@ func init() {
 				if e <= t {
 					e = t + 1
 				}
+				if r.chance(1, 5) { // both boundaries of the cue inside one unit
+					t = t/unit*unit + r.rangeI(0, unit/2)
+					e = t + r.rangeI(1, unit/2-1)
+				}
 				ts = append(ts, strconv.FormatInt(t, 10), strconv.FormatInt(e, 10))
 				switch r.intn(4) {
 				case 0:
